@@ -1,0 +1,9 @@
+//go:build !verif
+
+// Package verifhook marks linearization and crash points of the write paths for
+// the external verification harness. Without the build tag "verif" every
+// function is an empty, inlined no-op.
+package verifhook
+
+// Point marks that the calling goroutine reached the named point.
+func Point(id string, arg string) {}
